@@ -44,8 +44,13 @@ pub trait QueueRW<T> {
 
 #[derive(Clone)]
 pub struct BCast<T> {
-    mk: PhantomData<T>,
+    mk: PhantomData<*const T>,
 }
+
+// A broadcast queue lets several threads clone one shared value in place, so a
+// handle of it may only move to another thread when T is Sync as well. The
+// futures handles pick this up through their `RW: Send` bound below.
+unsafe impl<T: Sync> Send for BCast<T> {}
 
 impl<T: Clone> QueueRW<T> for BCast<T> {
     // TODO: Skip refcount when type is copyable or clone is safe on junk data
@@ -1214,9 +1219,12 @@ unsafe impl<RW: QueueRW<T>, T> Sync for MultiQueue<RW, T> {}
 unsafe impl<RW: QueueRW<T>, T> Send for MultiQueue<RW, T> {}
 unsafe impl<RW: QueueRW<T>, T: Send> Send for InnerSend<RW, T> {}
 unsafe impl<RW: QueueRW<T>, T: Send> Send for InnerRecv<RW, T> {}
-unsafe impl<RW: QueueRW<T>, T: Send> Send for FutInnerSend<RW, T> {}
-unsafe impl<RW: QueueRW<T>, T: Send> Send for FutInnerRecv<RW, T> {}
-unsafe impl<RW: QueueRW<T>, R, F: FnMut(&T) -> R, T> Send for FutInnerUniRecv<RW, R, F, T> {}
+unsafe impl<RW: QueueRW<T> + Send, T: Send> Send for FutInnerSend<RW, T> {}
+unsafe impl<RW: QueueRW<T> + Send, T: Send> Send for FutInnerRecv<RW, T> {}
+unsafe impl<RW: QueueRW<T> + Send, R, F: FnMut(&T) -> R + Send, T: Send> Send
+    for FutInnerUniRecv<RW, R, F, T>
+{
+}
 
 /// Usage: futures_multiqueue(`capacity`)
 /// This is equivalent to `futures_multiqueue_with(capacity,50,20)`.
